@@ -1,11 +1,178 @@
 (* C17 -- locks, semaphores, conditions, events: no lost wake-ups.
-   Only statements here; proofs live in Proofs/SemProgProofs.v and Proofs/CondProofs.v. *)
+   Only statements here; proofs live in Proofs/SemProgProofs.v and Proofs/CondProofs.v.
+
+   Reading guide.  [P_cond.code] is the table of SemProg programs compiled on THIS run from
+   billiard/synchronize.py (Condition.wait/notify/notify_all, Event.*, the SemLock wrappers)
+   and harness/c17_clients.py; [gen_world] the semaphores built with the generated
+   constructor parameters.  [Reach g]: g is reachable by those programs from an initial world
+   with ANY number of threads, ANY scripts of client calls and ANY schedule (a timed acquire
+   may give up at any step), as long as no counter reached SEM_VALUE_MAX.
+   Semaphore ids: 0 L lock, 1 S sleeping_count, 2 W woken_count, 3 T wait_semaphore, 4 F flag.
+   Weights of a thread (functions of its call, pc, registers): t_hl holds L; t_win between its
+   S.release and its W.release; t_pend sleepers a notifier grabbed and has not yet collected;
+   t_ntok tokens a notifier may still have outstanding; t_fh holds the flag. *)
 From Coq Require Import ZArith List Bool.
-From BV Require Import Model.SemProg Model.CondProg Gen.P_cond Proofs.CondProofs.
+From BV Require Import Model.SemProg Model.CondProg Proofs.SemProgProofs Proofs.CondProofs.
+From BV Require Gen.P_cond.
 Import ListNotations.
 Open Scope Z_scope.
 
-(* the programs compiled from billiard/synchronize.py on this run are the model's programs *)
+(* ---- tie: the generated programs and constructor parameters are the model's *)
 Theorem C17_code_is_model : forall c, P_cond.code c = CondProg.code c.
 Proof. exact gen_code_eq. Qed.
 Print Assumptions C17_code_is_model.
+
+Theorem C17_ctors_are_model :
+  P_cond.ctor_Lock = CondProg.ctor_Lock /\ P_cond.ctor_RLock = CondProg.ctor_RLock /\
+  (forall v, P_cond.ctor_Semaphore v = CondProg.ctor_Semaphore v) /\
+  (forall v, P_cond.ctor_BoundedSemaphore v = CondProg.ctor_BoundedSemaphore v) /\
+  (forall l, P_cond.ctor_Condition l = CondProg.ctor_Condition l) /\
+  P_cond.ctor_Condition_default = CondProg.ctor_Condition_default /\
+  P_cond.ctor_Event = CondProg.ctor_Event.
+Proof. exact gen_ctors_eq. Qed.
+Print Assumptions C17_ctors_are_model.
+
+(* ---- primitives, for ANY programs (any code table), any threads, any schedule *)
+(* an RLock admits one holder *)
+Theorem C17_rlock_mutex : forall code s ss scripts sched g es ok i j ti tj,
+    recur (nth s ss dsem) = true -> val (nth s ss dsem) = 1 ->
+    run code (init_sys code ss scripts) sched = (g, es, ok) ->
+    nth_error (thr g) i = Some ti -> nth_error (thr g) j = Some tj ->
+    0 < hs s ti -> 0 < hs s tj -> i = j.
+Proof. exact rlock_mutex. Qed.
+Print Assumptions C17_rlock_mutex.
+
+(* a Lock admits one holder as long as nobody released what it did not hold *)
+Theorem C17_lock_mutex : forall code s ss scripts sched g es ok i j ti tj,
+    recur (nth s ss dsem) = false -> val (nth s ss dsem) = 1 ->
+    run code (init_sys code ss scripts) sched = (g, es, ok) ->
+    (forall t, In t (thr g) -> 0 <= hs s t) ->
+    nth_error (thr g) i = Some ti -> nth_error (thr g) j = Some tj ->
+    0 < hs s ti -> 0 < hs s tj -> i = j.
+Proof. exact lock_mutex. Qed.
+Print Assumptions C17_lock_mutex.
+
+(* Semaphore(k): value >= 0 and value + sum of hold counts = k, hence at most k holders *)
+Theorem C17_sem_bound : forall code s ss scripts sched g es ok,
+    recur (nth s ss dsem) = false -> 0 <= val (nth s ss dsem) ->
+    run code (init_sys code ss scripts) sched = (g, es, ok) ->
+    0 <= vs s g /\ vs s g + sumz (hs s) (thr g) = val (nth s ss dsem).
+Proof. exact sem_bound. Qed.
+Print Assumptions C17_sem_bound.
+
+(* BoundedSemaphore: a release at the maximum raises ValueError and changes nothing;
+   the value never exceeds the maximum *)
+Theorem C17_bounded_refuses : forall code g i t s,
+    nth_error (thr g) i = Some t -> fin t = false ->
+    nth_error (code (cid t)) (pc t) = Some (Rel s) ->
+    recur (nth s (sems g) dsem) = false ->
+    maxv (nth s (sems g) dsem) <= vs s g ->
+    exists g', step code g i true = Some (g', (i, s, 1, E_VALUE)) /\ sems g' = sems g.
+Proof. exact bounded_refuses. Qed.
+Print Assumptions C17_bounded_refuses.
+
+Theorem C17_sem_le_max : forall code s sched g0 g es ok,
+    run code g0 sched = (g, es, ok) ->
+    recur (nth s (sems g0) dsem) = false ->
+    vs s g0 <= maxv (nth s (sems g0) dsem) ->
+    vs s g <= maxv (nth s (sems g0) dsem).
+Proof. exact sem_le_max. Qed.
+Print Assumptions C17_sem_le_max.
+
+(* ---- the Condition / Event code *)
+(* the invariant (per-thread facts, lock accounting, counting invariant, token bound, flag
+   bound) holds in every reachable state; in particular no assert of notify / notify_all
+   fails and no semaphore operation of Condition / Event raises *)
+Theorem C17_invariant : forall g, Reach g -> Inv g.
+Proof. exact reach_inv. Qed.
+Print Assumptions C17_invariant.
+
+(* mutual exclusion of the condition's lock, Lock or RLock *)
+Theorem C17_mutex : forall g i j ti tj, Reach g ->
+    nth_error (thr g) i = Some ti -> nth_error (thr g) j = Some tj ->
+    0 < nth 0 (held ti) 0 -> 0 < nth 0 (held tj) 0 -> i = j.
+Proof. exact G_mutex. Qed.
+Print Assumptions C17_mutex.
+
+(* sleeping - woken accounting; wait_semaphore = 0 when no notify is in progress
+   (in particular whenever the lock is free) *)
+Theorem C17_counts : forall g, Reach g ->
+    vv 1 g - vv 2 g + sumz t_pend (thr g) = sumz t_win (thr g) /\
+    0 <= vv 3 g <= sumz t_ntok (thr g) /\
+    (quiet g -> vv 3 g = 0 /\ vv 1 g - vv 2 g = sumz t_win (thr g)) /\
+    (vv 0 g = 1 -> quiet g).
+Proof. exact G_counts. Qed.
+Print Assumptions C17_counts.
+
+(* results of finished calls (okres): wait returns a boolean and True when untimed; notify,
+   notify_all, set, clear return None -- never an exception; is_set / Event.wait a boolean *)
+Theorem C17_results : forall g t, Reach g -> In t (thr g) -> Forall okres (results t).
+Proof. exact G_results. Qed.
+Print Assumptions C17_results.
+
+(* when notify_all has collected its acknowledgements nobody is left between announcement and
+   acknowledgement, and sleeping = woken = 0 *)
+Theorem C17_notify_all_wakes : forall g i t, Reach g -> nth_error (thr g) i = Some t -> nall_done t ->
+    (forall u, In u (thr g) -> t_win u = 0) /\ vv 1 g = 0 /\ vv 2 g = 0.
+Proof. exact G_notify_all_wakes. Qed.
+Print Assumptions C17_notify_all_wakes.
+
+(* no lost wake-up, trace form: an untimed waiter that was blocked on the wait semaphore
+   while a notify_all body was running holds its token (will return True) when that
+   notify_all reaches its final lock release, whatever happened in between *)
+Theorem C17_notify_all_wakes_trace : forall sched g1 g2 es ok n j tn tu,
+    Reach g1 -> gen_run_small g1 sched -> run P_cond.code g1 sched = (g2, es, ok) -> n <> j ->
+    nth_error (thr g1) n = Some tn -> in_nall tn = true ->
+    nth_error (thr g1) j = Some tu -> at_ tu 0 9 = true -> r0 (rg tu) = 0 ->
+    at_ (thread_at g2 n) 2 24 = true -> results (thread_at g2 n) = results tn ->
+    at_ (thread_at g2 j) 0 13 = true /\ pending (thread_at g2 j) = Some 1 /\
+    cur (thread_at g2 j) = cur tu /\ results (thread_at g2 j) = results tu.
+Proof. exact G_notify_all_wakes_trace. Qed.
+Print Assumptions C17_notify_all_wakes_trace.
+
+(* notify hands out at most one token; when it has collected its acknowledgement and no
+   other sleeper is counted, nobody is left in the wait window *)
+Theorem C17_notify_one : forall g i t, Reach g -> nth_error (thr g) i = Some t ->
+    fin t = false -> cid t = 1%nat -> t_hl t = 1 ->
+    vv 3 g <= 1 /\
+    ((pc t = 13%nat \/ pc t = 14%nat) -> vv 1 g = 0 -> forall u, In u (thr g) -> t_win u = 0).
+Proof. exact G_notify_one. Qed.
+Print Assumptions C17_notify_one.
+
+(* a timed wait may give up at any moment: it is then going to return False and the
+   invariant still holds; an untimed wait leaves its acquire only with True *)
+Theorem C17_timeout_consistent : forall g i t, Reach g -> small g -> nth_error (thr g) i = Some t ->
+    at_ t 0 9 = true -> r0 (rg t) <> 0 ->
+    exists g', step P_cond.code g i false = Some (g', (i, 3%nat, 0, 0)) /\ Inv g' /\
+               pending (thread_at g' i) = Some 0.
+Proof. exact G_timed_out_wait. Qed.
+Print Assumptions C17_timeout_consistent.
+
+Theorem C17_untimed_wait_true : forall g i t go g' e, Reach g -> small g -> nth_error (thr g) i = Some t ->
+    at_ t 0 9 = true -> r0 (rg t) = 0 -> step P_cond.code g i go = Some (g', e) ->
+    e = (i, 3%nat, 0, 1) /\ pending (thread_at g' i) = Some 1.
+Proof. exact G_untimed_wait_true. Qed.
+Print Assumptions C17_untimed_wait_true.
+
+(* every step keeps the invariant; the abstract event flag (aflag, 0 or 1) becomes 1 exactly
+   at Event.set's flag acquire, 0 at Event.clear's, and is unchanged by every other step;
+   is_set and Event.wait read exactly it and return what they read (flag_spec); a decided
+   result is the one returned (res_spec) *)
+Theorem C17_event_step : forall g i go g' e t, Reach g -> small g -> nth_error (thr g) i = Some t ->
+    step P_cond.code g i go = Some (g', e) ->
+    Inv g' /\ flag_spec i t g g' e /\ res_spec t (thread_at g' i).
+Proof. exact G_step. Qed.
+Print Assumptions C17_event_step.
+
+Theorem C17_event_flag_boolean : forall g, Reach g -> aflag g = 0 \/ aflag g = 1.
+Proof. exact G_flag_01. Qed.
+Print Assumptions C17_event_flag_boolean.
+
+(* non-vacuity: a reachable state with an untimed waiter blocked (thread 0), a timed waiter
+   that gave up and has not acknowledged yet, and a notify_all holding two sleepers and two
+   outstanding tokens *)
+Example C17_witness :
+  Reach ex_state /\ vv 3 ex_state = 2 /\ sumz t_ntok (thr ex_state) = 2 /\
+  sumz t_win (thr ex_state) = 2 /\ sumz t_pend (thr ex_state) = 2 /\
+  exists t, nth_error (thr ex_state) 0 = Some t /\ at_ t 0 9 = true /\ r0 (rg t) = 0.
+Proof. exact ex_witness. Qed.
